@@ -1,18 +1,21 @@
-"""C02 (partial) — static checking accepts exactly the dimensionally consistent programs: the constraint solver."""
+"""C02 (partial) — static checking accepts exactly the dimensionally consistent programs: expressions with symbolic token kinds against a reference dimensional analysis, and the constraint solver."""
 LEVEL = 'model_checking'
 LIMITS = {'max_unsupported': 0, 'max_undecided_frac': 0.05}
-OUTSIDE = ['accept / reject of whole programs, constraint *generation* per operator, the registry\'s base representations, "a rejected input prints nothing and defines nothing" — program structure has no symbolic value (symbolic source text cannot pass the keyword hash map / float parsing)',
+OUTSIDE = ['accept / reject of programs other than one expression statement over the session\'s names (a, c: Length; b: Time; k: Scalar; f: Length -> Time; the units meter, second) within the stated token bounds and templates; definitions, annotations, generic functions, structs; the polymorphic literals 0 / inf / NaN, typed holes, calls of non-functions, exponents that are not constant expressions over + - * / (reported as outside the reference, not asserted)',
            'systems with more than two type variables / two equations / two base dimensions; exponents outside [-3, 3]; non-integer exponents in the input system (the solver itself produces rational exponents, which are exercised)']
-ASSUMPTIONS = ['engine: operands of symbolic divisions of 64 bits or more are case-split over their feasible values (enumerated by the solver, at most 16; otherwise kept symbolic); a case that exceeds its wall-clock budget is reported as path-budget hit (exit 2 if it happens beyond the stated fraction), never as held',
+ASSUMPTIONS = ['accept kernel: token kinds are symbolic over the 37-kind expression alphabet; the real parser prunes what the grammar rejects; the reference (harness/src/h_accept.rs) is ordinary dimensional analysis on exponent vectors over (Length, Time) with exact rationals, applied to the real syntax tree (whose shape C10 decides); the dimensions of the names are the ones DECLARED in the session prelude; the reference was compared natively with the unchanged tree on all 52 059 sequences of up to 3 tokens of one family during development (a development aid, not part of the verdict)',
+               'engine: operands of symbolic divisions of 64 bits or more are case-split over their feasible values (enumerated by the solver, at most 16; otherwise kept symbolic); a case that exceeds its wall-clock budget is reported as path-budget hit (exit 2 if it happens beyond the stated fraction), never as held',
                'equations are built with DType::from_factors over the type variables T0, T1 and the base dimensions Length, Mass; exponents are symbolic integers in [-3, 3]',
                'oracle: consistency of the linear system over the rationals, decided by integer arithmetic on the exponents (determinant / minors)']
 
 def bounds(tier):
-    return {'shapes': 'one equation T0^a L^b ~ L^c M^d (all 7^4 exponent tuples); two equations T0^a T1^b ~ L^p, T0^c T1^d ~ L^q M^r with p, q, r symbolic in [-3, 3] and (a, b, c, d) pinned per case: quick = 10 fixed + 6 seeded tuples with |ad-bc| <= 1 + 2 seeded with |ad-bc| > 1; thorough = every tuple with |ad-bc| <= 1 and 60 seeded others'}
+    return {'accept_kernel': 'every token sequence of 1..%d tokens accepted by the real parser (first token fixed per case, the rest symbolic; name family F1, and F2 one token shorter in the quick tier) plus templates with one operator position symbolic over the 23 operators (x o x o x, ( x o x ) o x, x o x ², if x o x then x else x, x ^ ( 2 o 2 ), [ x , x o x ], f ( x o x ), x o x |> f, …): accepted iff the reference finds it consistent, reported type = reference type, a rejected input prints nothing and defines nothing' % (3 if tier == 'quick' else 4),
+            'shapes': 'one equation T0^a L^b ~ L^c M^d (all 7^4 exponent tuples); two equations T0^a T1^b ~ L^p, T0^c T1^d ~ L^q M^r with p, q, r symbolic in [-3, 3] and (a, b, c, d) pinned per case: quick = 10 fixed + 6 seeded tuples with |ad-bc| <= 1 + 2 seeded with |ad-bc| > 1; thorough = every tuple with |ad-bc| <= 1 and 60 seeded others'}
 
 def exhaustive(tier): return False
 
 def _inputs(rnd, case):
+    if 3 in case['cfg']: return {'u%d' % i: rnd.randrange(0, 23) for i in range(12)}
     c = {'u%d' % i: rnd.randrange(0, 7) for i in range(7)}
     for item in case['cfg'].get(1, '').split(','):
         if ':' in item:
@@ -38,7 +41,11 @@ def plan(tier, rnd, units):
     for q in quads:
         a, b, c, d = q
         cases.append({'id': 'two-a%d-b%d-c%d-d%d' % q, 'label': 'T0^%d T1^%d ~ L^p ; T0^%d T1^%d ~ L^q M^r (det %d)' % (a - 3, b - 3, c - 3, d - 3, det(q)), 'cfg': {0: 'two', 1: '0:%d,1:%d,2:%d,3:%d' % q}})
-    return [{'entry': 'h_c02_solve', 'cases': cases, 'opts': {'mode': 'replay', 'max_paths': 200000, 'instr_budget': 100_000_000, 'query_timeout_ms': 3000, 'hard_timeout': True, 'case_wall_s': 400 if tier == 'quick' else 1800, 'split_wide_div': 64}, 'bounded_exploration': True,
+    from . import accept
+    fams = ['F1'] if tier == 'quick' else ['F1', 'F2', 'F3', 'F4']
+    seqs = ['S1'] if tier == 'quick' else ['S1', 'S2', 'S3', 'S4', 'S5']
+    accept_job = accept.job(tier, 'c02', fams, seqs, 3 if tier == 'quick' else 4, short_fams=['F2'] if tier == 'quick' else [])
+    return [accept_job, {'entry': 'h_c02_solve', 'cases': cases, 'opts': {'mode': 'replay', 'max_paths': 200000, 'instr_budget': 100_000_000, 'query_timeout_ms': 3000, 'hard_timeout': True, 'case_wall_s': 400 if tier == 'quick' else 1800, 'split_wide_div': 64}, 'bounded_exploration': True,
              'expect_covers': ['c02-solver-returned', 'c02-solved', 'c02-rejected'], 'selftest_inputs': _inputs}]
 
 def classify(v, case): return None
